@@ -545,21 +545,35 @@ Proof.
   intro; subst. discriminate.
 Qed.
 
-Lemma detect_hit T m ty len rest :
-  wf_magic (magic T) = true -> In (m, ty, len) (magic T) -> detect T (m ++ rest) = Some ty.
+Lemma detect_hit T ok m ty len rest :
+  wf_magic (magic T) = true -> In (m, ty, len) (magic T) ->
+  ustar_at T (m ++ rest) && ok (takeN 512 (m ++ rest)) = false ->
+  detect T ok (m ++ rest) = Some ty.
 Proof.
-  intros Hwf HI. destruct (wf_magic_entry _ _ _ _ Hwf HI) as [Hl Hn].
-  unfold detect. rewrite (takeN_app_le 512 m rest Hl).
+  intros Hwf HI Hu. destruct (wf_magic_entry _ _ _ _ Hwf HI) as [Hl Hn].
+  unfold detect. unfold ustar_at in Hu. rewrite Hu. rewrite (takeN_app_le 512 m rest Hl).
   rewrite (detect_magic_hit _ _ _ _ _ Hwf HI).
   destruct m; [congruence | reflexivity].
 Qed.
 
-Lemma detect_tar T file :
-  detect_magic (magic T) (takeN 512 file) = None -> ustar_at T file = true -> detect T file = Some (s "tar").
+Lemma ustar_nonempty T file : ustar_at T file = true -> takeN 512 file <> [].
 Proof.
-  unfold detect, ustar_at. intros H1 H2. rewrite H1. rewrite H2.
-  destruct (takeN 512 file) eqn:E; [|reflexivity].
-  cbn [lenN] in H2. apply andb_true_iff in H2 as [H2 _]. apply N.leb_le in H2. lia.
+  unfold ustar_at, ustar_in. intros H E. rewrite E in H. cbn [lenN] in H.
+  apply andb_true_iff in H as [H _]. apply N.leb_le in H. lia.
+Qed.
+
+Lemma detect_tar T ok file :
+  ustar_at T file = true -> ok (takeN 512 file) = true -> detect T ok file = Some (s "tar").
+Proof.
+  intros H Hok. pose proof (ustar_nonempty _ _ H) as Hne. unfold detect. unfold ustar_at in H. rewrite H, Hok.
+  destruct (takeN 512 file); [congruence | reflexivity].
+Qed.
+
+Lemma detect_tar_fallback T ok file :
+  detect_magic (magic T) (takeN 512 file) = None -> ustar_at T file = true -> detect T ok file = Some (s "tar").
+Proof.
+  intros H1 H. pose proof (ustar_nonempty _ _ H) as Hne. unfold detect. unfold ustar_at in H. rewrite H, H1.
+  destruct (takeN 512 file); [congruence|]. destruct (ok (n :: l)); reflexivity.
 Qed.
 
 (* ====================================================================== refutation witnesses *)
